@@ -81,7 +81,10 @@ def mk_world(model, kind, dims, wrap):
 
 
 def num(v):
-    """JSON number -> the value handed to the implementation (ints stay ints)."""
+    """JSON number -> the value handed to the implementation (ints stay ints); 'e5000' / '-e5000' stand for +-10**5000,
+    integers with more digits than Python converts to text (or JSON reads back) by default."""
+    if isinstance(v, str):
+        return (-1 if v.startswith('-') else 1) * 10 ** int(v.lstrip('-')[1:])
     return v
 
 
@@ -206,6 +209,8 @@ class Harness:
                 vals += [self.step, -self.step]
             else:
                 vals += [10 ** 18 + 7, -(10 ** 18 + 7)]     # far beyond 2**53: integer arithmetic must stay exact
+                if E > 0 and self.rich:
+                    vals += ['e5000', '-e5000']             # beyond what int -> str conversion accepts by default
             if not self.rich:
                 vals = [1, -1] + ([E, -E] if E > 0 else []) + ([self.step] if cont else [])
             for v in vals:
@@ -257,7 +262,10 @@ class Harness:
     def _styled(fn, agent, args, names):
         """The same call written three ways - positional, by keyword, first coordinate positional and the rest by
         keyword - chosen by the arguments themselves (so every style meets every kind of target)."""
-        style = int(sum(abs(2 * float(v)) for v in args)) % 3 if all(v == v for v in args) else 0
+        try:
+            style = int(sum(abs(2 * float(v)) for v in args)) % 3 if all(v == v for v in args) else 0
+        except OverflowError:
+            style = 1
         if style == 0 or not args:
             return fn(agent, *args)
         if style == 1:
@@ -312,9 +320,9 @@ class Harness:
                 E = self.d3[ax]
                 if E > 0:
                     if self.wrap:
-                        new.append((old[ax] + Fr(d[ax])) % Fr(E))
+                        new.append((old[ax] + Fr(num(d[ax]))) % Fr(E))
                     else:
-                        new.append(min(max(old[ax] + Fr(d[ax]), Fr(0)), Fr(E) - self.off))
+                        new.append(min(max(old[ax] + Fr(num(d[ax])), Fr(0)), Fr(E) - self.off))
                 else:
                     new.append(None)     # nothing is claimed about zero-extent axes
             self._styled(w.env.move, a, [num(v) for v in d], ('x', 'y', 'z'))
@@ -492,6 +500,63 @@ def replaced_world_case(case):
     return steps
 
 
+TWO_MOVERS = [('grid', [5, 4], [1, 1], [3, 2]), ('space', [4.0, 3.0, 0], [0.5, 1.0, 0], [3.5, 2.0, 0]),
+              ('discrete', [3, 3, 3], [0, 1, 2], [2, 0, 1])]
+TWO_CALLS = [('move', [1, 1, 0]), ('move', [-2, 3, 0]), ('move_to', [2, 0, 0]), ('move', [7, -7, 1])]
+
+
+def two_movers_case(case):
+    """Two threads each move their own agent in one world, the second cutting into the first at every line of library
+    code (E5): each agent lands where its own call sends it."""
+    from mc.engine import preempt
+    from mc.engine.seams import reset_library
+    kind, dims, pa, pb = TWO_MOVERS[case['world']]
+    wrap = case['wrap']
+    ca, cb = TWO_CALLS[case['a']], TWO_CALLS[case['b']]
+    h = Harness(kind, dims, wrap, ['a', 'b'], False, 0.5 if kind == 'space' else 1)
+    state = {}
+
+    def expected(pos, call):
+        if call[0] == 'move_to':
+            return tuple(Fr(v) for v in call[1])
+        out = []
+        for ax in range(3):
+            E = h.d3[ax]
+            if E <= 0:
+                out.append(None)
+            elif h.wrap:
+                out.append((Fr(pos[ax]) + Fr(call[1][ax])) % Fr(E))
+            else:
+                out.append(min(max(Fr(pos[ax]) + Fr(call[1][ax]), Fr(0)), Fr(E) - h.off))
+        return tuple(out)
+
+    def make():
+        reset_library()
+        model = new_model(seed=1)
+        env = model.environment = mk_world(model, kind, dims, wrap)
+        a, b = Core.Agent('a', model), Core.Agent('b', model)
+        env.add_agent(a, *pa[:h.nargs])
+        env.add_agent(b, *pb[:h.nargs])
+        state['a'], state['b'] = a, b
+
+        def call(agent, c):
+            fn = env.move if c[0] == 'move' else env.move_to
+            return lambda: fn(agent, *c[1][:h.nargs])
+        return call(a, ca), call(b, cb)
+
+    def judge(k, box_a, box_b):
+        for who, box, start, c in (('a', box_a, pa, ca), ('b', box_b, pb, cb)):
+            want = expected(start, c)
+            got = tuple(state[who][PC].xyz())
+            bad = box.error is not None or any(wv is not None and Fr(g) != wv for g, wv in zip(got, want))
+            if bad:
+                raise Violation(f'two threads moving two agents of one {kind} world {dims} (wrap={wrap}): agent {who} '
+                                f'({c[0]} {c[1]} from {start}) ended up elsewhere when the second call cut into the first at '
+                                f'line event {k}', expected=[None if v is None else float(v) for v in want],
+                                observed=repr(box.error) if box.error else list(got))
+    return preempt.check_pair(make, judge, case.get('k'))
+
+
 def two_agent_configs(tier):
     base = [('discrete', [3, 2, 0]), ('space', [2.5, 1, 0]), ('grid', [3, 2])]
     if tier == 'thorough':
@@ -547,6 +612,21 @@ def run(ctx):
                     ctx.report(case, v)
                     return
     ctx.leg('replaced_world', cases=4 * len(pairs), note='second world installed in place of the first / used side by side')
+    if not ctx.small:
+        nt = 0
+        for wi in range(len(TWO_MOVERS)):
+            for wrap in (False, True):
+                for ai, bi in ((0, 1), (1, 2), (2, 3), (3, 0)):
+                    case = {'leg': 'two_movers', 'world': wi, 'wrap': wrap, 'a': ai, 'b': bi}
+                    ctx.traces += 1
+                    try:
+                        nt += hbfs._guard(two_movers_case, case)
+                    except Violation as v:
+                        ctx.report(dict(case, k=getattr(v, 'case_k', 0)), v)
+                        return
+        ctx.transitions += nt
+        ctx.leg('two_movers', schedules=nt, note='E5: two threads move two agents of one world, one preemption at every '
+                                                 'library line of the first call')
     # biggest first for load balance
     items.sort(key=lambda it: -(len(it[0][3]) * 10 ** 6 + max(1, it[0][1][0]) * max(1, (it[0][1] + [1, 1])[1]) *
                                 max(1, (it[0][1] + [1, 1])[2])))
@@ -559,6 +639,9 @@ def run(ctx):
 def replay(case):
     if case['leg'] == 'replaced_world':
         hbfs._guard(replaced_world_case, case)
+        return
+    if case['leg'] == 'two_movers':
+        hbfs._guard(two_movers_case, case)
         return
     c = case['config']
     hbfs.replay_case(Harness(c['kind'], c['dims'], c['wrap'], c['agents'], c['rich'], c['step']), case)
